@@ -149,6 +149,7 @@ def run(ctx):
                                 {"op": "isname", "s": s, "impl": r, "spec": sp}, signature="C04:isname:%s" % r)
                 if r != m:
                     ctx.disagree("isname", s, r, m)
+        _code_stream(ctx, Z, streams, inames, [bool(isname(s)) for s in inames])
         _in_configurations(ctx, Z, rnd)
         ctx.cov["exhaustive"] = True
         ctx.cov["enumeration"] = {"alphabet": ALPHA, "maxlen": maxlen, "strings": len(enum), "codepoints_probed": len(cps)}
@@ -160,6 +161,58 @@ def run(ctx):
                        "lake build ZCV.Props.C04 && lake env lean ZCV/Audit/C04.lean",
                        ["os.getenv returns what os.environ holds", "mapping is a dict of str",
                         "model covers substitute/_split/isname; %define handling is C05"])
+
+
+def _code_stream(ctx, Z, streams, inames, isname_impl):
+    """real functions vs the GENERATED code (translation of substitution.py's source by harness/zcv/pytrans.py, run by the
+    second driver zcdrv2): substitute on every input of the streams above under the same tables, _split on the same strings,
+    isname.  'generated code = model' is a theorem (Lemmas/CodeEqSubst.lean); this validates the translator and ZCV/Py.lean."""
+    from ZConfig.substitution import _split
+    if not core.ensure_driver2(ctx.tie):
+        ctx.notes.append("zcdrv2 (generated code) could not be built: the code-translation tie is broken; other streams unaffected")
+        ctx.cov["generated_code_stream"] = "driver unavailable"
+        return
+    A = core.sexp.Atom
+    n = 0
+    import time
+    t0 = time.time()
+
+    def opt(x):
+        return "none" if x is None else ["s", x]
+    for flip, defs, env, inputs, impl, _ans in streams:
+        if flip and not ctx.thorough():
+            # quick tier: the complementary tables only on every 4th input (the tables decide which names resolve, not the parse)
+            inputs, impl = inputs[::4], impl[::4]
+        pre = [[A("setdefs"), [[k, v] for k, v in defs.items()]], [A("setenv"), [[k, v] for k, v in env.items()]]]
+        ans = core.driver_batch([[A("code"), "substitute", s] for s in inputs], prelude=pre, exe=core.DRIVER2)
+        for s, r, a in zip(inputs, impl, ans):
+            n += 1
+            if r[0] == "exc":
+                continue
+            got = ["ok", a[1]] if a[0] == "ok" else ["err", [str(a[1][0])] + [x for x in a[1][1:]]]
+            if got != r:
+                ctx.disagree("generated-code:substitute", {"s": s, "flip": flip}, r, a)
+        if flip:
+            continue
+        ans = core.driver_batch([[A("code"), "_split", s] for s in inputs], exe=core.DRIVER2)
+        for s, a in zip(inputs, ans):
+            n += 1
+            try:
+                t = _split(s)
+                r = ["ok", ["tup"] + [opt(x) for x in t]]
+            except Z.SubstitutionSyntaxError:
+                r = ["err", ["syntax"]]
+            except Exception as e:
+                r = ["exc", type(e).__name__]
+            if r[0] != "exc" and [a[0], a[1]] != r:
+                ctx.disagree("generated-code:_split", s, r, a)
+    ans = core.driver_batch([[A("code"), "isname", s] for s in inames], exe=core.DRIVER2)
+    for s, r, a in zip(inames, isname_impl, ans):
+        n += 1
+        if a != ["ok", ["b", "t" if r else "f"]]:
+            ctx.disagree("generated-code:isname", s, r, a)
+    ctx.evaluations += n
+    ctx.cov["generated_code_stream"] = {"functions": ["substitute", "_split", "isname"], "evaluations": n, "seconds": round(time.time() - t0, 1)}
 
 
 def _in_configurations(ctx, Z, strings):
